@@ -148,6 +148,16 @@ class SourceSys:
                 ops.append(("set_pos_ms", p * 1000 // SR))
         return ops
 
+    def ops_small(self):
+        """Representative menu used for the deeper levels of merge validation."""
+        n = self.n
+        ops = [("read", 1), ("read", n + 1), ("open",), ("close",)]
+        if self.kind != "stdin":
+            ops.append(("read", None))
+        if self.kind == "buffer":
+            ops += [("set_pos", 0), ("set_pos", -1), ("set_pos", n), ("set_pos_ms", 0), ("rewind",), ("get_pos",)]
+        return ops
+
     def step(self, op):
         return self._real(op), self._model(op)
 
@@ -277,7 +287,9 @@ def work(task):
     def make():
         s_ = SourceSys(kind, data, sw, ch, path)
         if big:
-            s_.big_menu = [1, 1000, 4096, 4097, 8192, 65536] + ([None] if not kind.startswith("stdin") else [])
+            s_.big_menu = [1, 1000, 4096, 4097, 8192, 16385, 65536] + ([None] if not kind.startswith("stdin") else [])
+            s_.real.open()  # large rows start from an open source, so that depth 3 means three reads
+            s_.open = True
         return s_
 
     res = graph.explore(make, d=d, unpruned_depth=unpruned, max_depth=(3 if big else None))
@@ -298,6 +310,56 @@ def work(task):
     return {"cov": cov, "viol": viol}
 
 
+def position_tables(rep):
+    """Buffer source at realistic rates: position_ms / position_s / position agree on every instant that is
+    exactly a whole sample (sr*ms divisible by 1000; dyadic seconds), positive and negative."""
+    aio = lib()["io"]
+    for sr in (8000, 16000, 44100, 48000):
+        n = 2 * sr + 7
+        src = aio.BufferAudioSource(bytes(n), sr, 1, 1)
+        src.open()
+        for ms in list(range(0, 2001)) + [-1, -500, -1001, -2000]:
+            if (sr * ms) % 1000:
+                continue
+            rep.add("evaluations")
+            want = sr * ms // 1000
+            if want < 0:
+                want += n
+            try:
+                src.position_ms = ms
+                got = src.position
+                back = src.position_ms
+            except Exception as exc:
+                got = back = "raised %r" % (exc,)
+            ok = got == want and (ms < 0 or back == ms)
+            if not ok:
+                rep.violation("position_ms sr=%d ms=%d" % (sr, ms), "position_ms=%d at %d Hz puts the cursor at sample %r (reads back %r ms), expected sample %d" % (
+                    ms, sr, got, back, want), {"kind": "postab", "sr": sr, "ms": ms})
+                break
+        for k in (0, 1, 2, 1023, 1024, 4097, sr, sr + 1, 2 * sr):
+            for unit in ("samples", "seconds"):
+                rep.add("evaluations")
+                try:
+                    if unit == "samples":
+                        src.position = k
+                    else:
+                        if (k * 4096) % sr and sr not in (8000, 16000):
+                            continue
+                        t = k / sr
+                        from fractions import Fraction as F
+                        if F(t) * sr != k:
+                            continue  # not exactly a sample instant in binary: statement silent
+                        src.position_s = t
+                    got = src.position
+                    nxt = src.read(1)
+                except Exception as exc:
+                    got = "raised %r" % (exc,)
+                if got != k:
+                    rep.violation("position %s sr=%d k=%d" % (unit, sr, k), "setting the position to sample %d in %s gives %r" % (k, unit, got),
+                                  {"kind": "postab", "sr": sr, "ms": k})
+        src.close()
+
+
 def run(prop, tier):
     rep = common.Report(prop, tier, "explicit-state search over the real read/open/close/position operations of every "
                         "source kind to closure, merges validated with d-step suffixes, plus all unpruned operation "
@@ -308,7 +370,7 @@ def run(prop, tier):
         for (sw, ch) in FORMATS:
             for n in range(0, 7):
                 if kind == "buffer":
-                    d, unpruned = (1, 2) if quick else (2, 3)
+                    d, unpruned = (2, 2) if quick else (3, 3)
                     if n <= 3:
                         unpruned += 1
                 else:
@@ -317,7 +379,7 @@ def run(prop, tier):
     # large contents, large reads (sizes where chunked or buffered implementations change behaviour)
     for kind in ("buffer", "raw", "wav", "stdin", "stdin:4093", "stdin:8192,1"):
         for (sw, ch) in ((2, 2), (1, 3)):
-            tasks.append((kind, 20011, sw, ch, 0, 3 if quick else 4, tier))
+            tasks.append((kind, 40011, sw, ch, 0, 3 if quick else 4, tier))
     # stdin with short reads: every way of cutting the byte stream into chunks (small contents),
     # fixed trickle patterns otherwise
     for (sw, ch) in FORMATS:
@@ -333,15 +395,21 @@ def run(prop, tier):
                        "non-trivial (at least one operation) except the empty root")
     rep.cov["bounds"] = {"contents_samples": "0..6", "formats(sw,ch)": FORMATS,
                          "kinds": ["buffer", "raw", "wav", "stdin"]}
+    lib()
+    position_tables(rep)
     for part in common.pmap(work, tasks):
         rep.merge(part)
-    rep.assumptions += ["seconds/milliseconds positions are exercised on exact sample instants only (rate 8 Hz)",
+    rep.assumptions += ["seconds/milliseconds positions are exercised on exact sample instants only",
                         "stdin is a BytesIO behind sys.stdin.buffer; PyAudioSource and pydub formats cannot be built here"]
     return rep.finish()
 
 
 def replay(case):
     lib()
+    if case.get("kind") == "postab":
+        rep = common.Report("C11", "quick", "")
+        position_tables(rep)
+        return rep.violations[0][1] if rep.violations else None
     kind, n, sw, ch = case["source"], case["n"], case["sw"], case["ch"]
     data = content_big(n, sw, ch) if n > 1000 else content(n, sw, ch)
     path = None
@@ -360,6 +428,8 @@ def replay(case):
         s_ = SourceSys(kind, data, sw, ch, path)
         if n > 1000:
             s_.big_menu = [1]
+            s_.real.open()
+            s_.open = True
         return s_
 
     s, msg = graph.replay(mk, hist)
